@@ -57,6 +57,8 @@ def main_loop_heads(fn):
 
 
 def run(rep, tier):
+    from .common import unknown_helpers_are_not_violations
+    unknown_helpers_are_not_violations(rep, ("C01.R1", "C01.R2", "C01.R3", "C01.R4", "C01.R15"))
     rep.rule("C01.R1", "K4: thread_data::operator() only on the edge is_valid() && get_previous()==pending of the tagged CAS")
     rep.rule("C01.R2", "K5: current_state_ modified only by compare_exchange outside ctor/rebind; switch_status uses set_state_tagged / restore_state")
     rep.rule("C01.R3", "K4: the worker that lost the CAS disables restore and continues without store_state / re-queue")
